@@ -245,6 +245,24 @@ def check_c08(tier, replay=None):
         for f in rng.sample(sparse, min(len(sparse), 24 if T else 8)) + (DENSE if T else rng.sample(DENSE, 2)):
             go_case(cases, f, rng.choice([4, 5]) if f not in DENSE else 4, "ab", mode="free", warm=warm if rng.random() < 0.3 else (), w=30,
                     why="deeper search: table decisions only", ttcap=2000)
+        # carry-over: another game went through these very positions on the same engine before (position commands only); this game is
+        # its bare FEN - no repetition history - so the exact value must be that of a fresh engine ("irrespective of what was searched before")
+        for _ in range(40 if T else 6):
+            white_strong = rng.random() < 0.5
+            board = {6: "K", 62: "k", 1: "N", 57: "n", 15: "P", 55: "p"}
+            board[3 if white_strong else 59] = "Q" if white_strong else "q"
+            stm = rng.choice("wb")
+            wm = rng.choice([("b1", "c3")] + ([("d1", "d2")] if white_strong else []))
+            bm = rng.choice([("b8", "c6")] + ([("d8", "d7")] if not white_strong else []))
+            first, second = (wm, bm) if stm == "w" else (bm, wm)
+            cyc = [first[0] + first[1], second[0] + second[1], first[1] + first[0], second[1] + second[0]]
+            fmn0 = rng.choice([1, 7, 60])
+            f = board_to_fen(board, stm).split(" ")
+            k = rng.choice([2, 2, 3])
+            g0 = " ".join(f[:4] + ["0", str(fmn0)])
+            g2 = " ".join(f[:4] + [str(4 * k), str(fmn0 + 2 * k)])
+            go_case(cases, g2, rng.choice([2, 3]) if T else 2, "plain", pre=[{"fen": g0, "moves": cyc * k}], w=40,
+                    why="bare FEN after an identical game was set up on the same engine: exact value as on a fresh engine", ttcap=500)
         # forced mates: depth 2N-1 must report mate N
         for f, d in [("7k/5Q2/6K1/8/8/8/8/8 w - - 0 1", 1), ("6k1/5ppp/8/8/8/8/8/R3K3 w - - 0 1", 1), ("kbK5/pp6/1P6/8/8/8/8/R7 w - - 0 1", 3),
                      ("8/8/8/8/8/5k2/6q1/7K w - - 0 1", 2), ("7k/8/5KR1/8/8/8/8/8 w - - 0 1", 3), ("k7/8/1K6/8/8/8/8/6Q1 w - - 0 1", 1),
